@@ -3,6 +3,15 @@
 // Verus unit `cidr_match`: the body is compiled verbatim against the REAL std::net::IpAddr; the text parsers return
 // fully symbolic addresses / prefixes, `AnyIpCidr::contains` is standard containment.  Loop-free, full domain.
 #![allow(dead_code, unused_variables, unused_macros, static_mut_refs, unused_imports, unused_mut)]
+// `tracing::level!(..)` written with its path by an edit keeps compiling (log statements have no effect on the checks)
+pub mod tracing {
+    macro_rules! trace { ($($t:tt)*) => { () } }
+    macro_rules! debug { ($($t:tt)*) => { () } }
+    macro_rules! info { ($($t:tt)*) => { () } }
+    macro_rules! warn_ { ($($t:tt)*) => { () } }
+    macro_rules! error { ($($t:tt)*) => { () } }
+    pub(crate) use {trace, debug, info, warn_ as warn, error};
+}
 macro_rules! warn { ($($t:tt)*) => { () } }
 use std::net::{IpAddr, Ipv4Addr, Ipv6Addr};
 use std::convert::TryInto;
